@@ -401,6 +401,14 @@ func genC13(rt *rapid.T) c13Case {
 		if p.State == "est-collision" {
 			p.ArmD = pick[int64](rt, "armd", 0, 10, 50, 150)
 		}
+		if p.Local != "" && rapid.IntRange(0, 4).Draw(rt, "unspecified") == 0 {
+			// a configured local address that no connection can have as its
+			// destination: every inbound connection of this peer is refused (so
+			// no state that needs one can be prepared)
+			p.Local = map[bool]string{true: "0.0.0.0", false: "::"}[netip.MustParseAddr(rem).Is4()]
+			p.State = "fresh"
+			p.Passive = true
+		}
 		if p.State == "held-down" {
 			p.HD = pick(rt, "hd", "", stOpenConfirm, stEstablished)
 			p.HDCode = pick[uint8](rt, "hdcode", 0, 0, 1, 2, 3, 4, 5, 7, 8, 255, 100)
@@ -431,7 +439,7 @@ func genC13(rt *rapid.T) c13Case {
 	}
 	is4 := netip.MustParseAddr(c.Src).Is4()
 	right := tp.Local
-	if right == "" || netip.MustParseAddr(right).Is4() != is4 {
+	if right == "" || netip.MustParseAddr(right).Is4() != is4 || netip.MustParseAddr(right).IsUnspecified() {
 		if is4 {
 			right = "10.0.0.1"
 		} else {
